@@ -418,7 +418,7 @@ class Ref:
             return
         if d == 'call_stmt':
             if ch[0].value in self.p.hooks:
-                self.trace.append(('hook', ch[0].value, None, self.snapshot()))
+                self.trace.append(('hook', ch[0].value, self.pos, self.snapshot()))
                 return
             raise Unsupported('macro call')
         if d == 'finish_stmt':
@@ -426,7 +426,7 @@ class Ref:
         if d == 'custom_finish_stmt':
             raise Finish(ch[0].value)
         if d == 'custom_yield_stmt':
-            self.trace.append(('yield', 'YIELD_' + ch[0].value))
+            self.trace.append(('yield', 'YIELD_' + ch[0].value, self.pos))
             return
         if d == 'break_stmt':
             raise Break(ch[0].value if ch else None)
